@@ -9,3 +9,4 @@ for p in "$@"; do
 done
 git -C /repo checkout -- .
 git -C /repo status --short | head -3
+git -C /verif checkout -- evidence 2>/dev/null   # the evidence of a seeded run is not a record of the unchanged tree
